@@ -229,9 +229,13 @@ theorem getBin_of_fields (g : ArcGeom) (w : g.WF) (b : Bin) (sg : Seg) (r : g.In
   have har := r.ha
   have hmin := w.hmin
   have hmax := w.hmax
-  unfold ArcGeom.getBin
-  simp only []
+  unfold ArcGeom.getBin ArcGeom.getBinCore
+  simp only [if_true]
   rw [hview]
+  have hwrap : wrapView g.V (if l.swapped then b.view + g.V else b.view) = (if l.swapped then b.view + g.V else b.view) := by
+    unfold wrapView
+    cases l.swapped <;> simp <;> omega
+  rw [hwrap]
   have hswap : ((if l.swapped then b.view + g.V else b.view) > g.V - 1) ↔ l.swapped = true := by
     cases l.swapped <;> simp <;> omega
   have hviewfin : (if (if l.swapped then b.view + g.V else b.view) > g.V - 1
